@@ -129,6 +129,44 @@ def run_load_seq(job):
     return steps
 
 
+def run_load_ops(job):
+    """ONE process: a list of operations {op: load, path: k, text, loader: rules|transforms|tag_rules} / {op: clear}.
+    Nothing is cleared implicitly (only once before the first operation).  Per load: the parse error text of the file
+    (None if it loads; the harness uses it only as the identity of the error) and whether anything reached the user."""
+    from tally import merchant_utils
+    os.makedirs(job['dir'], exist_ok=True)
+    merchant_utils.clear_engine_cache()
+    fns = {'transforms': merchant_utils.get_transforms, 'rules': merchant_utils.get_all_rules,
+           'tag_rules': merchant_utils.get_tag_only_rules}
+    out = []
+    for op in job['ops']:
+        if op['op'] == 'clear':
+            merchant_utils.clear_engine_cache()
+            out.append({'op': 'clear'})
+            continue
+        path = os.path.join(job['dir'], 'm%d.rules' % op['path'])
+        with open(path, 'w', encoding='utf-8', newline='') as f:
+            f.write(op['text'])
+        try:
+            parse_merchants(op['text'])
+            err = None
+        except MerchantParseError as x:
+            err = str(x)
+        except Exception as x:  # noqa
+            err = 'other:' + type(x).__name__
+        buf_o, buf_e = io.StringIO(), io.StringIO()
+        exc = None
+        with warnings.catch_warnings(record=True) as w, contextlib.redirect_stdout(buf_o), contextlib.redirect_stderr(buf_e):
+            warnings.simplefilter('always')
+            try:
+                fns[op['loader']](path)
+            except Exception as x:  # noqa
+                exc = type(x).__name__
+        said = bool(w) or bool(buf_o.getvalue().strip()) or bool(buf_e.getvalue().strip())
+        out.append({'op': 'load', 'path': op['path'], 'err': err, 'said': said, 'exc': exc})
+    return out
+
+
 def main():
     p = json.load(sys.stdin)
     res = {'m': [run_m(t) for t in p.get('m', [])],
@@ -136,7 +174,8 @@ def main():
            'exprs': [run_expr(e) for e in p.get('exprs', [])],
            'load': [run_load(j) for j in p.get('load', [])],
            'm_ms': [run_m(t, 'most_specific') for t in p.get('m_ms', [])],
-           'load_seq': [run_load_seq(j) for j in p.get('load_seq', [])]}
+           'load_seq': [run_load_seq(j) for j in p.get('load_seq', [])],
+           'load_ops': [run_load_ops(j) for j in p.get('load_ops', [])]}
     json.dump(res, sys.stdout)
 
 
